@@ -169,7 +169,7 @@ def _pattern(rng, keys, allpk):
 def options(rng, keys, allpk):
     o = {"targets": [], "excludes": [], "I": rng.random() < 0.4, "E": rng.random() < 0.45, "f": rng.random() < 0.35,
          "modified": None, "size": None, "pretend": rng.random() < 0.12, "tty": rng.random() < 0.93,
-         "exclude_file": False}
+         "exclude_file": False, "verbosity": rng.choice((0, 0, 0, 0, 0, 0, 0, -1, -1, 1))}
     if rng.random() < 0.55:
         o["targets"] = [_pattern(rng, keys, allpk) for _ in range(rng.choice((1, 1, 1, 2)))]
     if rng.random() < 0.4:
@@ -186,6 +186,8 @@ def argv(rng, o):
     """Command line for `pclean dist` (option spellings vary; the exclusion file path is filled in by the harness)."""
     a = ["dist"]
     pre, post = [], []
+    if o.get("verbosity"):
+        (pre if rng.random() < 0.5 else post).append({-1: "-q", 1: "-v"}[o["verbosity"]])
     for flag, short, long_ in (("I", "-I", "--installed"), ("E", "-E", "--exists"), ("f", "-f", "--fetch-restricted"),
                                ("pretend", "-p", "--pretend")):
         if o[flag]:
